@@ -143,6 +143,64 @@ def cmap_jobs(n=30, seed=1, opts=0, ppm=0, dirs=(0, 1), fonts=None):
     return out
 
 
+def _cmap_chars(path):
+    """[(code point, glyph id)] of a shipped font, from the independent cmap reader (None without Silf/cmap)."""
+    from fontgen import sfnt
+    try:
+        S = sfnt.Sfnt(path)
+        if "Silf" not in S.order or "cmap" not in S.order:
+            return None
+        cm = sfnt.read_cmap(S.table("cmap"))
+    except Exception:
+        return None
+    out = []
+    for pc in cm["ref"]:
+        for c in range(pc["lo"], min(pc["hi"], pc["lo"] + 6000) + 1):
+            g = pc["gids"][c - pc["lo"]] if pc["kind"] == "list" else (pc["base"] + c - pc["lo"]) & 0xFFFF
+            if g and c >= 0x20 and c != 0xFFFF and not 0xD800 <= c <= 0xDFFF and c not in (0x2028, 0x2029, 0x85, 0xFEFF):
+                out.append((c, g))
+    return out
+
+
+def cmap_text_jobs(tmp, nlines=60, seed=1, fonts=None):
+    """One text file per shipped Silf font: lines over the characters the font maps, half of them pseudo-random, half
+    made of characters whose glyph ids are congruent modulo a power of two (256..4096) - glyphs that any per-glyph
+    table indexed by a truncated id would confuse.  Returned as "file" jobs (many lines on one face and one font)."""
+    import random, glob
+    rng = random.Random(seed * 15485863 + 11)
+    d = os.path.join(tmp, "cmaptexts")
+    os.makedirs(d, exist_ok=True)
+    out = []
+    for path in sorted(glob.glob(os.path.join(F, "*.ttf"))):
+        name = os.path.basename(path)
+        if fonts and name not in fonts:
+            continue
+        cg = _cmap_chars(path)
+        if not cg:
+            continue
+        lines = []
+        for k in range(nlines):
+            if k % 2 == 0 or len(cg) < 40:
+                ln = [rng.choice(cg)[0] for _ in range(rng.choice([2, 3, 5, 8]))]
+            else:
+                c0, g0 = rng.choice(cg)
+                m = 1 << rng.choice([8, 9, 10, 11, 12])
+                al = [c for c, g in cg if (g - g0) % m == 0 and g != g0]
+                if not al:
+                    ln = [c0, rng.choice(cg)[0]]
+                else:
+                    ln = [c0] + [rng.choice(al) for _ in range(rng.choice([1, 2, 3]))]
+                    if rng.random() < 0.5:
+                        ln.reverse()
+                    if rng.random() < 0.5:      # the aliasing glyphs alone on a line of their own, before the probe
+                        lines.append("".join(chr(c) for c in ln[1:]))
+            lines.append("".join(chr(c) for c in ln))
+        tf = os.path.join(d, name + ".txt")
+        open(tf, "w", encoding="utf-8").write("\n".join(lines) + "\n")
+        out.append({"font": path, "file": tf, "dir": 0, "opts": 0, "ppm": 0, "maxlines": 4 * nlines, "id": "cmaptext:" + name})
+    return out
+
+
 def manytables_jobs(tmp, opts=0, counts=(39, 40, 41, 64)):
     """Padauk with additional (ignored) tables so that the sfnt directory has exactly `count` entries: file faces look
     tables up in that directory, callback faces do not."""
